@@ -494,4 +494,321 @@ theorem guTop_false_abs (isSep : UInt8 → Bool) {bufsz : Nat} {s s1 : IKS} (str
         rw [fill_fail hn]
         simp [absKS, slice_nil, guLoop_eof]
 
+
+/-- **the `for (;;)` loop of `ks_getuntil`, index level = list level** -/
+theorem getuntilLoop_sim (isSep : UInt8 → Bool) {bufsz : Nat} (s : IKS) (str : Bytes) (hi : InvI bufsz s) :
+    guLoop isSep s.next (absKS s).cur s.isEof (rd s.buf 0) str =
+      ((getuntilLoop bufsz isSep s str).1, (getuntilLoop bufsz isSep s str).2.1,
+        absKS (getuntilLoop bufsz isSep s str).2.2) ∧
+    InvI bufsz (getuntilLoop bufsz isSep s str).2.2 := by
+  fun_induction getuntilLoop bufsz isSep s str with
+  | case1 s str s1 h => exact guTop_true_abs isSep str hi h
+  | case2 s str s1 h i str' hlt =>
+    obtain ⟨e1, hi1⟩ := guTop_false_abs isSep str hi h
+    obtain ⟨hb, hcp, hfound, _⟩ := scan_spec isSep hi1
+    rw [e1, guLoop_stop isSep _ _ _ _ _ (hfound hlt), ← hcp]
+    exact ⟨rfl, hi1.adv _ (by have := hi1.beg; omega)⟩
+  | case3 s str s1 h i str' hlt ih =>
+    obtain ⟨e1, hi1⟩ := guTop_false_abs isSep str hi h
+    obtain ⟨hb, hcp, _, hall⟩ := scan_spec isSep hi1
+    have hi2 : InvI bufsz { s1 with begin := i + 1 } := hi1.adv _ (by have := hi1.beg; omega)
+    obtain ⟨ih1, ih2⟩ := ih hi2
+    refine ⟨?_, ih2⟩
+    rw [e1, guLoop_all isSep _ _ _ _ _ (hall hlt), ← hcp, ← ih1]
+    have : (absKS { s1 with begin := i + 1 }).cur = [] := slice_nil (by simp only; omega)
+    rw [this]
+
+theorem getuntilI_sim (isSep : UInt8 → Bool) {bufsz : Nat} (s : IKS) (hi : InvI bufsz s) :
+    getuntil isSep (absKS s) =
+      ⟨(getuntilI bufsz isSep s).ret, (getuntilI bufsz isSep s).str, (getuntilI bufsz isSep s).dret,
+        absKS (getuntilI bufsz isSep s).ks⟩ ∧
+    InvI bufsz (getuntilI bufsz isSep s).ks := by
+  have hemp : (absKS s).cur.isEmpty = decide (s.begin ≥ s.end_) := by
+    by_cases hlt : s.begin < s.end_
+    · have hc := slice_cons (L := s.buf.toList) hi.beg hlt (by simp [hi.size, hi.en])
+      have : ¬ (s.end_ ≤ s.begin) := by omega
+      simp [absKS, hc, this]
+    · have hge : s.end_ ≤ s.begin := by omega
+      have hc : (absKS s).cur = [] := slice_nil hge
+      simp [hc, hge]
+  unfold getuntil getuntilI
+  rw [hemp]
+  have e0 : (absKS s).isEof = s.isEof := rfl
+  rw [e0]
+  split
+  · exact ⟨rfl, hi⟩
+  · obtain ⟨h1, h2⟩ := getuntilLoop_sim isSep s [] hi
+    refine ⟨?_, h2⟩
+    have e1 : (absKS s).next = s.next := rfl
+    have e2 : (absKS s).buf0 = rd s.buf 0 := rfl
+    simp only [e1, e2, h1]
+
+
+/-! ## `kseq_read` -/
+
+def absSt (st : StI) : St := ⟨st.lastChar, absKS st.ks⟩
+
+def absGU (g : GUI) : GU := ⟨g.ret, g.str, g.dret, absKS g.ks⟩
+
+/-- the comment part of `kseq_read` (as `Kseq.cmOf`) -/
+def cmOfI (bufsz : Nat) (g : GUI) : GUI :=
+  if g.dret != 10 then getuntilI bufsz (fun c => c == 10) g.ks else ⟨0, [], 0, g.ks⟩
+
+/-- `kseq_read` from the sequence loop on (as `Kseq.kseqTail`) -/
+def kseqTailI (bufsz : Nat) (lc : UInt8) (nm cm : Bytes) (s1 : IKS) : Int × Rec × StI :=
+  let q := seqLoopI bufsz s1 []
+  let lc2 := match q.1 with
+    | some c => if c == 62 || c == 64 then c else lc
+    | none => lc
+  if q.1 != some 43 then ((q.2.1.length : Int), ⟨nm, cm, q.2.1, []⟩, ⟨lc2, q.2.2⟩) else
+  let k := skipLineI bufsz q.2.2
+  match k.1 with
+  | none => (-2, ⟨nm, cm, q.2.1, []⟩, ⟨lc2, k.2⟩)
+  | some _ =>
+    let ql := qualLoopI bufsz q.2.1.length k.2 []
+    if q.2.1.length != ql.1.length then (-2, ⟨nm, cm, q.2.1, ql.1⟩, ⟨0, ql.2⟩)
+    else ((q.2.1.length : Int), ⟨nm, cm, q.2.1, ql.1⟩, ⟨0, ql.2⟩)
+
+theorem kseqBodyI_eq (bufsz : Nat) (lc : UInt8) (s : IKS) (hg : ¬ (getuntilI bufsz isSpace s).ret < 0) :
+    kseqBodyI bufsz lc s = kseqTailI bufsz lc (getuntilI bufsz isSpace s).str
+      (cmOfI bufsz (getuntilI bufsz isSpace s)).str (cmOfI bufsz (getuntilI bufsz isSpace s)).ks := by
+  simp only [kseqBodyI, hg, if_false, cmOfI, kseqTailI]
+  rfl
+
+theorem cmOfI_sim {bufsz : Nat} (g : GUI) (hi : InvI bufsz g.ks) :
+    cmOf (absGU g) = absGU (cmOfI bufsz g) ∧ InvI bufsz (cmOfI bufsz g).ks := by
+  unfold cmOf cmOfI
+  have e : (absGU g).dret = g.dret := rfl
+  rw [e]
+  split
+  · obtain ⟨h1, h2⟩ := getuntilI_sim (fun c => c == 10) g.ks hi
+    exact ⟨h1, h2⟩
+  · exact ⟨rfl, hi⟩
+
+theorem kseqTailI_sim {bufsz : Nat} (lc : UInt8) (nm cm : Bytes) (s1 : IKS) (hi : InvI bufsz s1) :
+    kseqTail lc nm cm (absKS s1) =
+      ((kseqTailI bufsz lc nm cm s1).1, (kseqTailI bufsz lc nm cm s1).2.1, absSt (kseqTailI bufsz lc nm cm s1).2.2) ∧
+    InvI bufsz (kseqTailI bufsz lc nm cm s1).2.2.ks := by
+  obtain ⟨hq, iq⟩ := seqLoopI_sim s1 [] hi
+  unfold kseqTail kseqTailI
+  simp only [hq]
+  generalize seqLoopI bufsz s1 [] = q at iq ⊢
+  by_cases h43 : (q.1 != some 43) = true
+  · simp only [h43, if_true]
+    exact ⟨rfl, iq⟩
+  · simp only [h43]
+    obtain ⟨hk, ik⟩ := skipLineI_sim q.2.2 iq
+    simp only [hk]
+    generalize skipLineI bufsz q.2.2 = k at ik ⊢
+    cases hk1 : k.1 with
+    | none =>
+      simp only []
+      exact ⟨rfl, ik⟩
+    | some x =>
+      simp only []
+      obtain ⟨hql, iql⟩ := qualLoopI_sim q.2.1.length k.2 [] ik
+      simp only [hql]
+      generalize qualLoopI bufsz q.2.1.length k.2 [] = ql at iql ⊢
+      by_cases hne : (q.2.1.length != ql.1.length) = true
+      · simp only [hne, if_true]
+        exact ⟨rfl, iql⟩
+      · simp only [hne]
+        exact ⟨rfl, iql⟩
+
+
+theorem kseqBodyI_sim {bufsz : Nat} (lc : UInt8) (s : IKS) (hi : InvI bufsz s) :
+    kseqBody lc (absKS s) =
+      ((kseqBodyI bufsz lc s).1, (kseqBodyI bufsz lc s).2.1, absSt (kseqBodyI bufsz lc s).2.2) ∧
+    InvI bufsz (kseqBodyI bufsz lc s).2.2.ks := by
+  obtain ⟨hg, ig⟩ := getuntilI_sim isSpace s hi
+  by_cases hneg : (getuntilI bufsz isSpace s).ret < 0
+  · have hneg' : (getuntil isSpace (absKS s)).ret < 0 := by rw [hg]; exact hneg
+    have e1 : kseqBody lc (absKS s) = (-1, ⟨[], [], [], []⟩, ⟨lc, (getuntil isSpace (absKS s)).ks⟩) := by
+      simp only [kseqBody, hneg', if_true]
+    have e2 : kseqBodyI bufsz lc s = (-1, ⟨[], [], [], []⟩, ⟨lc, (getuntilI bufsz isSpace s).ks⟩) := by
+      simp only [kseqBodyI, hneg, if_true]
+    rw [e1, e2, hg]
+    exact ⟨rfl, ig⟩
+  · have hneg' : ¬ (getuntil isSpace (absKS s)).ret < 0 := by rw [hg]; exact hneg
+    rw [kseqBody_eq lc _ hneg', kseqBodyI_eq bufsz lc s hneg]
+    have hg' : getuntil isSpace (absKS s) = absGU (getuntilI bufsz isSpace s) := hg
+    obtain ⟨hc, ic⟩ := cmOfI_sim (getuntilI bufsz isSpace s) ig
+    rw [hg', hc]
+    exact kseqTailI_sim lc _ _ _ ic
+
+theorem kseqReadI_sim {bufsz : Nat} (st : StI) (hi : InvI bufsz st.ks) :
+    kseqRead (absSt st) = ((kseqReadI bufsz st).1, (kseqReadI bufsz st).2.1, absSt (kseqReadI bufsz st).2.2) ∧
+    InvI bufsz (kseqReadI bufsz st).2.2.ks := by
+  unfold kseqRead kseqReadI
+  have e : (absSt st).lastChar = st.lastChar := rfl
+  have e' : (absSt st).ks = absKS st.ks := rfl
+  rw [e, e']
+  split
+  · obtain ⟨hh, ih⟩ := skipToHeaderI_sim st.ks hi
+    simp only [hh]
+    generalize skipToHeaderI bufsz st.ks = k at ih ⊢
+    cases hk1 : k.1 with
+    | none => exact ⟨rfl, ih⟩
+    | some c => exact kseqBodyI_sim c k.2 ih
+  · exact kseqBodyI_sim st.lastChar st.ks hi
+
+theorem nextFastSekI_sim {bufsz : Nat} (fin : Fin) (early : Bool) (st : StI) (hi : InvI bufsz st.ks) :
+    nextFastSek fin early (absSt st) =
+      ((nextFastSekI bufsz fin early st).1, (nextFastSekI bufsz fin early st).2.1,
+        absSt (nextFastSekI bufsz fin early st).2.2) ∧
+    InvI bufsz (nextFastSekI bufsz fin early st).2.2.ks := by
+  obtain ⟨hr, ir⟩ := kseqReadI_sim st hi
+  unfold nextFastSek nextFastSekI
+  simp only [hr]
+  generalize kseqReadI bufsz st = r at ir ⊢
+  have ee : errnum fin early (absSt r.2.2).ks = errnumI fin early r.2.2.ks := rfl
+  rw [ee]
+  split
+  · exact ⟨rfl, ir⟩
+  · exact ⟨rfl, ir⟩
+
+/-- under the invariant the termination measures of the two layers coincide -/
+theorem sizeI_eq {bufsz : Nat} {s : IKS} (hi : InvI bufsz s) : sizeI s = size (absKS s) := by
+  unfold sizeI size
+  have : (absKS s).cur.length = (s.end_ - s.begin).toNat := by
+    by_cases hlt : s.begin ≤ s.end_
+    · exact slice_length hi.beg hlt (by simp [hi.size, hi.en])
+    · rw [show (absKS s).cur = [] from slice_nil (by omega)]
+      simp only [List.length_nil]; omega
+  rw [this]
+  rfl
+
+theorem readLoopI_sim {bufsz : Nat} (fin : Fin) (early : Bool) (st : StI) (acc : List Rec) (hi : InvI bufsz st.ks) :
+    readLoopI bufsz fin early st acc = readLoop fin early (absSt st) acc := by
+  fun_induction readLoopI bufsz fin early st acc with
+  | case1 st acc r h0 =>
+    obtain ⟨hn, _⟩ := nextFastSekI_sim fin early st hi
+    rw [readLoop]
+    simp only [hn]
+    simp only [show ((nextFastSekI bufsz fin early st).1 == 0) = true from h0, if_true]
+  | case2 st acc r h0 hneg =>
+    obtain ⟨hn, _⟩ := nextFastSekI_sim fin early st hi
+    rw [readLoop]
+    simp only [hn]
+    have h0' : ((nextFastSekI bufsz fin early st).1 == 0) = false := by simpa using h0
+    have hneg' : (nextFastSekI bufsz fin early st).1 < 0 := hneg
+    simp only [h0', Bool.false_eq_true, if_false, hneg', if_true]
+    rfl
+  | case3 st acc r h0 hneg hlt ih =>
+    obtain ⟨hn, inx⟩ := nextFastSekI_sim fin early st hi
+    rw [readLoop]
+    simp only [hn]
+    have h0' : ((nextFastSekI bufsz fin early st).1 == 0) = false := by simpa using h0
+    have hneg' : ¬ (nextFastSekI bufsz fin early st).1 < 0 := hneg
+    have hlt' : size (absSt (nextFastSekI bufsz fin early st).2.2).ks < size (absSt st).ks := by
+      have : sizeI (nextFastSekI bufsz fin early st).2.2.ks < sizeI st.ks := hlt
+      rw [sizeI_eq inx, sizeI_eq hi] at this
+      exact this
+    simp only [h0', Bool.false_eq_true, if_false, hneg', hlt', dite_true]
+    exact ih inx
+  | case4 st acc r h0 hneg hlt =>
+    obtain ⟨hn, inx⟩ := nextFastSekI_sim fin early st hi
+    rw [readLoop]
+    simp only [hn]
+    have h0' : ((nextFastSekI bufsz fin early st).1 == 0) = false := by simpa using h0
+    have hneg' : ¬ (nextFastSekI bufsz fin early st).1 < 0 := hneg
+    have hlt' : ¬ size (absSt (nextFastSekI bufsz fin early st).2.2).ks < size (absSt st).ks := by
+      have : ¬ sizeI (nextFastSekI bufsz fin early st).2.2.ks < sizeI st.ks := hlt
+      rw [sizeI_eq inx, sizeI_eq hi] at this
+      exact this
+    simp only [h0', Bool.false_eq_true, if_false, hneg', hlt', dite_false]
+
+/-! ## the `gzread` results `Kseq.reads` makes fit the buffer -/
+
+theorem reads_ok (bufsz : Nat) (hb : 1 ≤ bufsz) (fin : Fin) :
+    ∀ (fuel : Nat) (d : Bytes), ∀ r ∈ reads bufsz fin fuel d, RdOK bufsz r := by
+  intro fuel
+  induction fuel with
+  | zero =>
+    intro d r hr
+    simp only [reads, List.mem_singleton] at hr
+    subst hr; trivial
+  | succ n ih =>
+    intro d r hr
+    simp only [reads] at hr
+    split at hr
+    · rename_i hc
+      split at hr
+      · rename_i c t hct
+        rcases List.mem_cons.mp hr with rfl | hr
+        · have := congrArg List.length hct
+          simp only [List.length_take, List.length_cons] at this
+          show t.length + 1 = bufsz
+          omega
+        · exact ih _ r hr
+      · simp only [List.mem_singleton] at hr
+        subst hr
+        show 0 < bufsz
+        omega
+    · rename_i hc
+      split at hr
+      · simp only [List.mem_singleton] at hr
+        subst hr; trivial
+      · simp only [List.mem_singleton] at hr
+        subst hr
+        show d.length < bufsz
+        omega
+
+theorem initStI_inv (bufsz : Nat) (hb : 1 ≤ bufsz) (fin : Fin) (buf : Array UInt8) (hsz : buf.size = bufsz)
+    (d : Bytes) : InvI bufsz (initStI bufsz fin buf d).ks :=
+  ⟨hb, hsz, Int.le_refl _, by simp [initStI], reads_ok bufsz hb fin _ d⟩
+
+theorem initStI_abs (bufsz : Nat) (fin : Fin) (buf : Array UInt8) (d : Bytes) :
+    absSt (initStI bufsz fin buf d) = initSt bufsz fin (buf.getD 0 0) d := by
+  simp [absSt, initStI, initSt, absKS, slice_nil, rd]
+
+/-- **refinement**: for every buffer size ≥ 1, every initial content of the `malloc`'ed buffer, every stream and
+final status, the index-level transcription computes exactly what the list model computes (`junk` = the
+initial `buf[0]`) -/
+theorem readAllI_eq (bufsz : Nat) (hb : 1 ≤ bufsz) (fin : Fin) (early : Bool) (buf : Array UInt8)
+    (hsz : buf.size = bufsz) (d : Bytes) :
+    readAllI bufsz fin early buf d = readAll bufsz fin early (buf.getD 0 0) d := by
+  unfold readAllI readAll
+  rw [readLoopI_sim fin early _ [] (initStI_inv bufsz hb fin buf hsz d), initStI_abs]
+
+
+/-! ## every access to the buffer is in bounds -/
+
+/-- the byte `ks_getc` returns is read at an index in `[0, __bufsize)` (index 0 after a failed `gzread`) -/
+theorem getcI_in_bounds {bufsz : Nat} {s s' : IKS} {c : UInt8} (hi : InvI bufsz s)
+    (h : getcI bufsz s = (some c, s')) :
+    0 ≤ s'.begin - 1 ∧ s'.begin - 1 < bufsz ∧ c = rd s'.buf (s'.begin - 1) := by
+  have hb := hi.beg
+  have he := hi.en
+  have hp := hi.pos
+  unfold getcI at h
+  split at h
+  · simp at h
+  · split at h
+    · simp only at h
+      split at h
+      · simp at h
+      · have hf := (fill_inv hi).en
+        have hf0 : (fill bufsz s).begin = 0 := rfl
+        simp only [Prod.mk.injEq, Option.some.injEq] at h
+        obtain ⟨rfl, rfl⟩ := h
+        simp only [hf0]
+        refine ⟨by omega, by omega, by simp⟩
+    · simp only [Prod.mk.injEq, Option.some.injEq] at h
+      obtain ⟨rfl, rfl⟩ := h
+      simp only
+      refine ⟨by omega, by omega, by simp⟩
+
+/-- the scan of `ks_getuntil` stops in `[begin, end]`: the bytes tested, the source of the `memcpy` and the
+delimiter `buf[i]` (`i < end`) are inside `buf[0 .. __bufsize)` -/
+theorem scan_in_bounds (isSep : UInt8 → Bool) {bufsz : Nat} {s : IKS} (hi : InvI bufsz s) (hle : s.begin ≤ s.end_) :
+    s.begin ≤ scan isSep s.buf s.end_ s.begin ∧ scan isSep s.buf s.end_ s.begin ≤ s.end_ ∧ s.end_ ≤ bufsz := by
+  have he : s.end_ ≤ (s.buf.size : Int) := by rw [hi.size]; exact hi.en
+  have hsc := scan_eq isSep s.buf s.end_ he _ s.begin rfl hi.beg hle
+  have hlen := slice_length (L := s.buf.toList) hi.beg hle (by simpa using he)
+  have hk := length_takeWhile_le' (fun c => !isSep c) (slice s.buf.toList s.begin s.end_)
+  refine ⟨(scan_spec isSep hi).1, ?_, hi.en⟩
+  rw [hsc]
+  omega
+
 end ObiVerif.KseqIdx
